@@ -327,6 +327,7 @@ func SpecMatch(pattern string, hasWild bool, s string) bool {
 // Rejected events leave resource, version and event untouched.
 //@ func (*ResourceSubscription).handleEventAdd
 //@   requires rs != nil && r != nil && rs.e != nil && rs.e.cache != nil
+//@   assigns rs.collection, rs.version, r.Idx, r.Value, r.Update, alloc()
 //@   assumes predLoadedOK(rs)
 //@   ensures[C01,C02,C15] result ==> old(rs.state) == stateCollection && 0 <= r.Idx && r.Idx <= old(len(rs.collection.Values)) &&
 //@       len(rs.collection.Values) == old(len(rs.collection.Values)) + 1 && rs.version == old(rs.version) + 1 && r.Update &&
@@ -341,6 +342,7 @@ func SpecMatch(pattern string, hasWild bool, s string) bool {
 
 //@ func (*ResourceSubscription).handleEventRemove
 //@   requires rs != nil && r != nil && rs.e != nil && rs.e.cache != nil
+//@   assigns rs.collection, rs.version, r.Idx, r.Value, r.Update, alloc()
 //@   assumes predLoadedOK(rs)
 //@   ensures[C01,C02,C15] result ==> old(rs.state) == stateCollection && 0 <= r.Idx && r.Idx < old(len(rs.collection.Values)) &&
 //@       len(rs.collection.Values) == old(len(rs.collection.Values)) - 1 && rs.version == old(rs.version) + 1 && r.Update &&
@@ -352,6 +354,52 @@ func SpecMatch(pattern string, hasWild bool, s string) bool {
 //@   ensures[C01,C15] !result ==> rs.collection == old(rs.collection) && rs.model == old(rs.model) && rs.version == old(rs.version) && rs.state == old(rs.state) &&
 //@       r.Update == old(r.Update) && r.Idx == old(r.Idx)
 //@   safety[C15]
+
+// change: accepted only on a model; the new model is the old one overridden by the effective
+// changes (delete actions remove present keys; no-op entries are dropped from the change set),
+// built in a fresh map (the old map, which subscribers may still hold, is untouched); an event
+// without effective changes is rejected; rejected events leave everything untouched.
+//@ func (*ResourceSubscription).handleEventChange
+//@   requires rs != nil && r != nil && rs.e != nil && rs.e.cache != nil
+//@   assumes predLoadedOK(rs) && (rs.state == stateModel ==> rs.model.Values != nil)
+//@   ensures[C01,C02,C15] !result ==> rs.version == old(rs.version) && rs.model == old(rs.model) && rs.collection == old(rs.collection) && rs.state == old(rs.state) &&
+//@       r.Update == old(r.Update)
+//@   ensures[C01,C02] result ==> old(rs.state) == stateModel && rs.version == old(rs.version) + 1 && r.Update && fresh(rs.model) &&
+//@       r.OldValues == old(rs.model.Values) && card(r.Changed) > 0
+//@   ensures[C01] result ==> (forall k string :: has(r.OldValues, k) == old(has(rs.model.Values, k)) && r.OldValues[k] == old(rs.model.Values[k]))
+//@   ensures[C01] result ==> (forall k string :: has(r.Changed, k) && r.Changed[k].Type == codec.ValueTypeDelete ==> !has(rs.model.Values, k) && has(r.OldValues, k))
+//@   ensures[C01] result ==> (forall k string :: has(r.Changed, k) && r.Changed[k].Type != codec.ValueTypeDelete ==> has(rs.model.Values, k) && rs.model.Values[k] == r.Changed[k])
+//@   ensures[C01] result ==> (forall k string :: !has(r.Changed, k) ==> has(rs.model.Values, k) == has(r.OldValues, k) && rs.model.Values[k] == r.OldValues[k])
+//@   ensures rs.subs == old(rs.subs) && rs.resetting == old(rs.resetting)
+//@   safety[C15]
+//@   loop 1 invariant m != nil && m != rs.model.Values && rs.model == old(rs.model) && rs.model.Values == old(rs.model.Values) && props != m && props != rs.model.Values
+//@   loop 1 invariant forall k string :: has(rs.model.Values, k) == old(has(rs.model.Values, k)) && rs.model.Values[k] == old(rs.model.Values[k])
+//@   loop 1 invariant forall k string :: has(m, k) ==> visited1[k] && has(rs.model.Values, k) && m[k] == rs.model.Values[k]
+//@   loop 1 invariant forall k string :: visited1[k] && has(rs.model.Values, k) ==> has(m, k)
+//@   loop 2 invariant m != nil && m != rs.model.Values && rs.model == old(rs.model) && rs.model.Values == old(rs.model.Values) && props != m && props != rs.model.Values
+//@   loop 2 invariant forall k string :: has(rs.model.Values, k) == old(has(rs.model.Values, k)) && rs.model.Values[k] == old(rs.model.Values[k])
+//@   loop 2 invariant forall k string :: !visited2[k] || !has(props, k) ==> has(m, k) == has(rs.model.Values, k) && m[k] == rs.model.Values[k]
+//@   loop 2 invariant forall k string :: visited2[k] && has(props, k) && props[k].Type == codec.ValueTypeDelete ==> !has(m, k) && has(rs.model.Values, k)
+//@   loop 2 invariant forall k string :: visited2[k] && has(props, k) && props[k].Type != codec.ValueTypeDelete ==> has(m, k) && m[k] == props[k]
+//@ func (*ResourceSubscription).handleEventDelete
+//@   trusted
+//@   requires rs != nil && r != nil
+
+// handleEvent: an event for a resource that is not loaded is dropped (except reaccess); while a
+// reset re-fetch is running, state events are dropped; an event that its handler rejects reaches
+// nobody and changes nothing; every delivered event is stamped with the version it applies to
+// and handed to each current subscriber exactly once.
+//@ func (*ResourceSubscription).handleEvent
+//@   requires rs != nil && r != nil && rs.e != nil && rs.e.cache != nil
+//@   assumes (rs.state > stateRequested ==> predLoadedOK(rs)) && (forall sb Subscriber :: has(rs.subs, sb) ==> sb != nil)
+//@   ensures[C01,C15] old(rs.state) <= stateRequested && r.Event != "reaccess" ==> callcount("Event") == old(callcount("Event")) &&
+//@       rs.version == old(rs.version) && rs.model == old(rs.model) && rs.collection == old(rs.collection) && rs.state == old(rs.state)
+//@   ensures[C12,C15] old(rs.state) > stateRequested && old(rs.resetting) && (r.Event == "change" || r.Event == "add" || r.Event == "remove" || r.Event == "delete") ==>
+//@       callcount("Event") == old(callcount("Event")) && rs.version == old(rs.version) && rs.model == old(rs.model) && rs.collection == old(rs.collection)
+//@   ensures[C01,C03] r.Event != "delete" && callcount("Event") > old(callcount("Event")) ==> r.Version == old(rs.version) &&
+//@       callcount("Event") == old(callcount("Event")) + old(card(rs.subs))
+//@   safety[C15]
+//@   loop 1 invariant callcount("Event") == old(callcount("Event")) + iters1 && r.Version == old(rs.version) && card(rs.subs) == old(card(rs.subs))
 
 // The snapshot handed to a connection and its version are read as a pair.
 //@ func (*ResourceSubscription).GetModel
@@ -434,6 +482,40 @@ func SpecMatch(pattern string, hasWild bool, s string) bool {
 //@   loop 1 invariant (callcount("SendRequest") - old(callcount("SendRequest"))) + (spawncount() - old(spawncount())) == iters1
 //@   loop 1 invariant callcount("lockEvents") == old(callcount("lockEvents")) + 1 && e.queries == old(e.queries) && card(e.queries) == old(card(e.queries))
 //@   loop 1 invariant qe != nil && predEventSubOK(e)
+
+// --- reset diff for models (C12) -------------------------------------------------------------
+
+// processResetModel: the change event derived from a re-fetched model carries exactly a delete
+// action for every key only the cached model has, the new value for every key that is new or
+// whose value differs, and nothing for keys with an equal value; without any such key no event
+// is emitted at all.
+//@ func (*ResourceSubscription).processResetModel
+//@   requires rs != nil && rs.e != nil && rs.e.cache != nil && props != nil
+//@   assumes predLoadedOK(rs) && rs.state == stateModel && rs.model.Values != nil && props != rs.model.Values &&
+//@       (forall sb Subscriber :: has(rs.subs, sb) ==> sb != nil) &&
+//@       (forall k string :: has(props, k) ==> props[k].Type != codec.ValueTypeDelete) &&
+//@       (forall k string :: has(rs.model.Values, k) ==> rs.model.Values[k].Type >= codec.ValueTypePrimitive)
+//@   assert[C12] codec.EncodeChangeEvent#1: card(arg0) > 0 &&
+//@       (forall k string :: has(arg0, k) && arg0[k].Type == codec.ValueTypeDelete ==> has(rs.model.Values, k) && !old(has(props, k))) &&
+//@       (forall k string :: has(arg0, k) && arg0[k].Type != codec.ValueTypeDelete ==> old(has(props, k)) && arg0[k] == old(props[k]) &&
+//@           !(has(rs.model.Values, k) && ufBool_valeq(arg0[k], rs.model.Values[k]))) &&
+//@       (forall k string :: has(rs.model.Values, k) && !old(has(props, k)) ==> has(arg0, k) && arg0[k].Type == codec.ValueTypeDelete) &&
+//@       (forall k string :: old(has(props, k)) && !(has(rs.model.Values, k) && ufBool_valeq(old(props[k]), rs.model.Values[k])) ==> has(arg0, k) && arg0[k] == old(props[k]))
+//@   ensures[C12] callcount("EncodeChangeEvent") == old(callcount("EncodeChangeEvent")) ==> callcount("handleEvent") == old(callcount("handleEvent"))
+//@   safety[C15]
+//@   loop 1 invariant vals == old(rs.model.Values) && vals != nil && props != nil && props != vals && rs.model == old(rs.model)
+//@   loop 1 invariant forall k string :: has(vals, k) == old(has(rs.model.Values, k)) && vals[k] == old(rs.model.Values[k])
+//@   loop 1 invariant forall k string :: old(has(props, k)) ==> has(props, k) && props[k] == old(props[k])
+//@   loop 1 invariant forall k string :: has(props, k) && !old(has(props, k)) ==> has(vals, k) && visited1[k] && props[k].Type == codec.ValueTypeDelete
+//@   loop 1 invariant forall k string :: visited1[k] && has(vals, k) && !old(has(props, k)) ==> has(props, k)
+//@   loop 2 invariant vals == old(rs.model.Values) && vals != nil && props != nil && props != vals && rs.model == old(rs.model)
+//@   loop 2 invariant forall k string :: has(vals, k) == old(has(rs.model.Values, k)) && vals[k] == old(rs.model.Values[k])
+//@   loop 2 invariant forall k string :: has(props, k) && !old(has(props, k)) ==> has(vals, k) && props[k].Type == codec.ValueTypeDelete
+//@   loop 2 invariant forall k string :: has(props, k) && old(has(props, k)) ==> props[k] == old(props[k])
+//@   loop 2 invariant forall k string :: has(vals, k) && !old(has(props, k)) ==> has(props, k)
+//@   loop 2 invariant forall k string :: old(has(props, k)) && !has(props, k) ==> visited2[k] && has(vals, k) && ufBool_valeq(old(props[k]), vals[k])
+//@   loop 2 invariant forall k string :: visited2[k] && has(props, k) && old(has(props, k)) ==> !(has(vals, k) && ufBool_valeq(props[k], vals[k]))
+//@   loop 2 invariant forall k string :: !visited2[k] && old(has(props, k)) ==> has(props, k)
 
 // --- system reset re-fetch (C12, C03, C19) --------------------------------------------
 
